@@ -286,8 +286,8 @@ Definition pids (s : state) a p := match prods s a p with Some x => p_ids x | No
 
 (* ---------- the configuration: what x/asset accepts for an extended pair ---------- *)
 (* WasmAddExtendedPairsVaultRecords (x/asset/keeper/pairs_vault.go:154-164) rejects a draw-down fee
-   outside [0,1); extended pair ids are unique keys; a pair's two assets differ (AddPairsRecords) *)
-Definition ep_ok (e : epair) : Prop := 0 <= ep_ddf e < P18 /\ ep_in e <> ep_out e.
+   outside [0,1) and a closing fee outside [0,1); extended pair ids are unique keys; a pair's two assets differ (AddPairsRecords) *)
+Definition ep_ok (e : epair) : Prop := 0 <= ep_ddf e < P18 /\ ep_in e <> ep_out e /\ 0 <= ep_closing e.
 Definition cfg_ok (c : cfg) : Prop :=
   NoDup (map ep_id (epairs c)) /\ forall e, In e (epairs c) -> ep_ok e.
 
